@@ -677,6 +677,10 @@ func (ex *Exec) evalCall(x ECall, st *State, env *Env) TV {
 			r = ex.scalarOf(v.V)
 		}
 		return TV{Sc{And(Ge(r, base), Lt(r, st.alloc))}, tBool}
+	case "emod": // Euclidean remainder (what % computes on unsigned operands)
+		return TV{Sc{app(SInt, "mod", sc(arg(0).V), sc(arg(1).V))}, tInt}
+	case "ediv":
+		return TV{Sc{app(SInt, "div", sc(arg(0).V), sc(arg(1).V))}, tInt}
 	case "max", "min":
 		a, b := sc(arg(0).V), sc(arg(1).V)
 		if name == "max" {
@@ -731,6 +735,24 @@ func (ex *Exec) evalCall(x ECall, st *State, env *Env) TV {
 			return TV{Sc{ex.bytesToStr(st, s)}, tString}
 		}
 		return v
+	}
+	if gt, ok := ex.specs.GhostFields[name]; ok && len(x.Args) == 1 {
+		// per-object ghost state name(obj)
+		v := arg(0)
+		var r Term
+		if sv, isS := v.V.(SliceV); isS {
+			r = sv.Ptr
+		} else {
+			r = ex.scalarOf(v.V)
+		}
+		srt := specSort(gt, ex)
+		key := "ghost<" + name + ">"
+		h := ex.heapGetIn(st, key, ArrSort(SInt, srt))
+		t := tInt
+		if srt == SBool {
+			t = tBool
+		}
+		return TV{Sc{Sel(h, r)}, t}
 	}
 	if sf, ok := ex.specs.SFuncs[name]; ok {
 		var args []TV
@@ -843,7 +865,14 @@ func (ex *Exec) sconcat(a, b Term) Term {
 	ex.vc.DeclareFun("sconcat", []Sort{SStr, SStr}, SStr)
 	ex.vc.DeclareFun("slen", []Sort{SStr}, SInt)
 	r := app(SStr, "sconcat", a, b)
-	ex.vc.AssumeRaw(fmt.Sprintf("(= (slen %s) (+ (slen %s) (slen %s)))", r.S, a.S, b.S), "")
+	if !ex.sconcatAx {
+		ex.sconcatAx = true
+		save := ex.vc.inQuant
+		ex.vc.inQuant = 0
+		ex.vc.AssumeRaw("(forall ((a Str) (b Str)) (! (= (slen (sconcat a b)) (+ (slen a) (slen b))) :pattern ((sconcat a b))))", "length of a concatenation")
+		ex.vc.AssumeRaw("(forall ((a Str)) (! (>= (slen a) 0) :pattern ((slen a))))", "string lengths are non-negative")
+		ex.vc.inQuant = save
+	}
 	return r
 }
 
